@@ -5,6 +5,7 @@ import collections
 import contextlib
 import copy
 import os
+import tempfile
 import warnings
 
 from sim.genpipe import all_outputs, build_inputs, build_pipeline, describe, gen_workload, map_kwargs
@@ -56,6 +57,8 @@ def gen_case(tape, tier):
     }
     if not C.needs_folder(cfg["storage"]):
         cfg["run_folder"] = bool(tape.coin(0.5, "folder"))
+    elif tape.coin(0.1, "no-folder-given"):
+        cfg["run_folder"] = False  # a storage that needs a folder, none given: pipefunc makes a temporary one (and warns)
     if cfg["entry"] == "map_async" and cfg["executor"]["kind"] == "sequential":
         cfg["executor"] = {"kind": "default-pool", "ex": {"mode": "process", "workers": 2, "start": "fifo",
                                                           "pickle_at": "submit"}}
@@ -227,6 +230,20 @@ def _run_case(case, exec_seed, exec_tape, stack):
                 restricted = run_tag == "restricted"
                 if restricted:
                     kw["fixed_indices"] = dict(cfg["fixed"])
+                if folder is None and C.needs_folder(cfg["storage"]):
+                    import pipefunc.map._run_info as _ri
+
+                    class _Tmp:  # tempfile as pipefunc.map._run_info sees it: temporary folders live in the scratch root
+                        def __getattr__(self, name):
+                            return getattr(tempfile, name)
+
+                        @staticmethod
+                        def mkdtemp(*a, **k):
+                            return tempfile.mkdtemp(dir=root)
+
+                    shared.setdefault("saved_tempfile", _ri.tempfile)
+                    _ri.tempfile = _Tmp()
+                    sim.probe("temporary_run_folder")
                 if resumed:
                     kw["cleanup"] = False
                     sim.probe("first_run_continues_restricted_run")
@@ -321,6 +338,10 @@ def _run_case(case, exec_seed, exec_tape, stack):
                         V("calls", kind, detail)
         finally:
             C.restore_default_pool(sim)
+            if "saved_tempfile" in shared:
+                import pipefunc.map._run_info as _ri
+
+                _ri.tempfile = shared.pop("saved_tempfile")
       digests.append(sim.kernel.digest())
       out["yields"] = out.get("yields", 0) + sim.kernel.steps
       for v in viol[nviol0:]:
